@@ -1,7 +1,7 @@
 #!/bin/sh
 # Builds the framework offline from files on disk.
 set -e
-cd /verif
+cd "$(dirname "$0")"
 export GOFLAGS=-mod=mod GOPROXY=off GOSUMDB=off GOTOOLCHAIN=local GOWORK=off
 GO=/opt/veriftools/go1.26.8/bin/go
 mkdir -p bin evidence replays
